@@ -27,6 +27,8 @@ type C13Q struct {
 	Selector  bool   `json:"selector,omitempty"` // SQL is a path selector for ExecReader
 	Wrapped   bool   `json:"wrapped,omitempty"`
 	Unordered bool   `json:"unordered,omitempty"`
+	// Cells: cells of sinkCells that the query's vf_sink calls must have set by the time Exec returns
+	Cells []int `json:"cells,omitempty"`
 }
 
 type C13Batch struct {
@@ -76,7 +78,7 @@ func renameDoc(v any, names map[string]bool, suffix string) any {
 
 func genC13(t *rapid.T) any {
 	b := C13Batch{}
-	b.Scenario = rapid.SampledFrom([]string{"fresh-selectors-separate-documents", "fresh-selectors-separate-documents", "warm-selectors-separate-documents", "shared-document", "shared-document", "internal-parallelism", "path-selectors", "same-query-text", "same-query-text"}).Draw(t, "scenario")
+	b.Scenario = rapid.SampledFrom([]string{"fresh-selectors-separate-documents", "fresh-selectors-separate-documents", "warm-selectors-separate-documents", "shared-document", "shared-document", "internal-parallelism", "path-selectors", "same-query-text", "same-query-text", "function-side-effects"}).Draw(t, "scenario")
 	b.Procs = rapid.SampledFrom([]int{1, 2, 4, 16}).Draw(t, "procs")
 	b.Repeat = rapid.IntRange(1, 3).Draw(t, "repeat")
 	ng := rapid.IntRange(2, 8).Draw(t, "goroutines")
@@ -90,6 +92,70 @@ func genC13(t *rapid.T) any {
 	var sharedSc *c07Schema
 	if b.Shared {
 		sharedDoc, sharedSc = genC07Doc(t)
+	}
+	if b.Scenario == "function-side-effects" {
+		// ASYNC / SPINASYNC calls in top-level and nested positions write, unsynchronised, one cell per
+		// invocation; the caller reads the cells as soon as Exec has returned
+		next := 0
+		for g := 0; g < ng; g++ {
+			nq := rapid.IntRange(1, 3).Draw(t, fmt.Sprintf("g%d.n", g))
+			var list []C13Q
+			for qi := 0; qi < nq; qi++ {
+				l := fmt.Sprintf("g%d.q%d", g, qi)
+				q := C13Q{Doc: len(b.Docs)}
+				mkrows := func(n int) []any {
+					rows := []any{}
+					for r := 0; r < n; r++ {
+						rows = append(rows, map[string]any{"k": float64(r), "cell": float64(next), "items": []any{map[string]any{"c": 1.0, "cell": float64(next + 1)}}})
+						next += 2
+					}
+					return rows
+				}
+				first := next
+				doc := map[string]any{"t": mkrows(rapid.IntRange(1, 4).Draw(t, l+".rows"))}
+				doc["grid"] = []any{mkrows(rapid.IntRange(0, 2).Draw(t, l+".g0")), mkrows(rapid.IntRange(1, 2).Draw(t, l+".g1"))}
+				form := rapid.SampledFrom([]string{"top", "top-async", "derived", "derived-async", "cte", "scalar-subquery", "scalar-subquery-async", "inner-arrays", "inner-arrays-async", "join-derived"}).Draw(t, l+".form")
+				qual := map[bool]string{false: "SPINASYNC.vf_sink(cell)", true: "ASYNC.vf_sink(cell) AS a"}[strings.HasSuffix(form, "-async")]
+				own := func(rows []any, nested bool) {
+					for _, r := range rows {
+						m := r.(map[string]any)
+						if nested {
+							q.Cells = append(q.Cells, int(m["items"].([]any)[0].(map[string]any)["cell"].(float64)))
+						} else {
+							q.Cells = append(q.Cells, int(m["cell"].(float64)))
+						}
+					}
+				}
+				switch strings.TrimSuffix(form, "-async") {
+				case "top":
+					q.SQL = "SELECT k, " + qual + " FROM t"
+					own(doc["t"].([]any), false)
+				case "derived":
+					q.SQL = "SELECT * FROM (SELECT k, " + qual + " FROM t) x"
+					own(doc["t"].([]any), false)
+				case "cte":
+					q.SQL = "WITH c AS (SELECT k, " + qual + " FROM t) SELECT * FROM c"
+					own(doc["t"].([]any), false)
+				case "scalar-subquery":
+					q.SQL = "SELECT k, (SELECT c, " + qual + " FROM items) AS sb FROM t"
+					own(doc["t"].([]any), true)
+				case "inner-arrays":
+					q.SQL = "SELECT k, " + qual + " FROM grid"
+					for _, in := range doc["grid"].([]any) {
+						own(in.([]any), false)
+					}
+				case "join-derived":
+					q.SQL = "SELECT * FROM (SELECT k, SPINASYNC.vf_sink(cell) FROM t) x JOIN t y ON x.k = y.k"
+					q.Unordered = true
+					own(doc["t"].([]any), false)
+				}
+				_ = first
+				b.Docs = append(b.Docs, doc)
+				list = append(list, q)
+			}
+			b.G = append(b.G, list)
+		}
+		return &C13Case{Batch: b}
 	}
 	for g := 0; g < ng; g++ {
 		nq := rapid.IntRange(1, 4).Draw(t, fmt.Sprintf("g%d.n", g))
@@ -187,12 +253,21 @@ func c13Exec(q *C13Q, doc map[string]any) c13Outcome {
 		}
 		return c13Outcome{Status: "ok", Value: val.Norm(v)}
 	}
+	for _, c := range q.Cells {
+		sinkCells[c] = 0
+	}
 	o := Run(doc, q.SQL, Opts{Wrapped: q.Wrapped}, genql.UnReportedErrors(func(error) {}))
 	switch {
 	case o.Panic != "":
 		return c13Outcome{Status: "panic", Detail: o.Panic}
 	case o.Err != "":
 		return c13Outcome{Status: "error", Detail: o.Err}
+	}
+	for _, c := range q.Cells {
+		// plain read: Exec has returned, so every ASYNC / SPINASYNC call of the query has completed
+		if sinkCells[c] != 1 {
+			return c13Outcome{Status: "incomplete", Detail: fmt.Sprintf("Exec returned, but the vf_sink call for cell %d has not completed (cells of this query: %v)", c, q.Cells)}
+		}
 	}
 	return c13Outcome{Status: "ok", Rows: o.Rows}
 }
